@@ -8,36 +8,60 @@ DRIVER = "C35"
 GENERATED = []
 SOURCES = ["src/allmydata/hashtree.py"]
 DESIGN_REF = "DESIGN.md §2 C35, Appendix A.2"
-TECHNIQUE = ("Lean 4 theorems (soundness under pair-injectivity, completeness for every pop order, rollback, order "
-             "irrelevance) over an executable transcription of CompleteBinaryTreeMixin / HashTree / IncompleteHashTree; "
-             "differential correspondence of whole set_hashes histories (outcome class and list contents after every call, "
-             "set.pop() order injected) against the real classes with real SHA-256d hashes mapped to symbolic terms")
-LEVEL_TEXT = ("Proved in Lean for trees of any size, any adversarial hashes/leaves and every set.pop() order: rollback, soundness "
-              "(+ accepted leaf is genuine) under pair-injectivity, completeness on closed trees (closedness proved invariant), "
-              "order-irrelevance of accept/reject and of the accepted tree, and that HashTree(L) is a genuine padded Merkle tree. "
-              "All for a presence test that never takes a stored hash for None (the repaired code; or the code as it is over "
-              "non-empty hashes); the b\"\" and IndexError corners of the code as it is are proved counterexamples. Model tied to "
-              "hashtree.py by exhaustive small-scope (1..8 leaves) and seeded (to 64 leaves) comparison of outcomes and list contents.")
-LEVEL_NOTE = ("Lean kernel + standard axioms; model hand-written, tied by correspondence; SHA-256d collision resistance enters as "
-              "the explicit hypothesis PairInjective (satisfied by the symbolic term instance). The Lean model run by the check is "
-              "the repaired behaviour (fixes/C35-falsy-hash-and-indexerror.diff); C35_MODEL_MODE=asis runs the model of the "
-              "unrepaired code instead.")
-RULE = ("a case is one set_hashes call of a history on a real IncompleteHashTree (state before, hashes, leaves, pop order); "
-        "distinct = distinct (num_leaves, tree-before, call) triples; non-trivial = the call supplies at least one hash to a "
-        "tree of at least 2 leaves. Index-arithmetic / HashTree-construction / needed_hashes comparisons are counted as "
-        "trivial cases.")
+TECHNIQUE = ("Lean 4 theorems over an executable transcription of hashtree.py (CompleteBinaryTreeMixin index arithmetic, "
+             "HashTree construction with padding, IncompleteHashTree.needed_hashes / set_hashes with its provisional "
+             "insertion, per-level red-dot sets, set.pop() order as a parameter, rollback list, Python-int keys incl. "
+             "negative aliasing, _name_hash); differential correspondence of whole set_hashes histories (outcome class "
+             "and list contents after every call, set.pop() order injected), of needed_hashes / the validate-one-leaf "
+             "step, HashTree construction and every index function against the real classes, with real SHA-256d hashes "
+             "mapped to symbolic terms; a fixed corpus (one history per repaired defect and per seeded change) runs first")
+LEVEL_TEXT = ("Proved in Lean (26 theorems, Tahoe.C35) for trees of any size, arbitrary adversarial batches (any values, any "
+              "Python-int node numbers incl. stray/negative/too large, any dict order) and every set.pop() order: "
+              "sound / accepted_leaf_genuine / sound_any_batch (an accepted call keeps the tree equal to the genuine tree "
+              "wherever populated, under PairInjective); rollback / rollback_any_batch / every_exception_exit_restores + "
+              "exits_are_named (every call that does not return normally ends in BadHashError, NotEnoughHashesError or "
+              "IndexError and restores the list exactly); history_invariant (any history of accepted and rejected calls "
+              "keeps size, root and agreement with the genuine tree); needed_hashes_accepted(_hashtree) / complete(_int_keys) "
+              "(the genuine answer to needed_hashes plus the genuine leaf is accepted, for every list of leaves of any "
+              "length incl. padding slots), needed_hashes_minimal (nothing less on the chain is ever accepted), "
+              "genuine_batch_never_refuted (genuine values anywhere: accepted or NotEnoughHashesError, never refuted); "
+              "order_irrelevant(_int_keys); closed_preserved / sib_closed_preserved (the tree-shape hypotheses are "
+              "invariants); hashtree_is_genuine (HashTree(L) is a genuine padded Merkle tree). All for a presence test that "
+              "never takes a stored hash for None — the code in /repo since fix b65c364, or the earlier code over non-empty "
+              "hashes; the b\"\" and IndexError defects of the earlier code are proved counterexamples (Cfg.asIs). The model "
+              "is tied to hashtree.py by a fixed corpus, exhaustive small scope (1..8 leaves), re-split / odd-length values, "
+              "stray node numbers in every dict order and seeded histories to 64 leaves.")
+LEVEL_NOTE = ("Lean kernel + standard axioms; model hand-written, tied by correspondence. Still assumptions: SHA-256d collision "
+              "resistance, as the explicit hypothesis PairInjective (satisfied by the symbolic term instance; the real hashes "
+              "are what the correspondence runs). Left open in the model: which of IndexError / BadHashError / "
+              "NotEnoughHashesError a batch with a negative key written into an empty slot raises (pop-order dependent; "
+              "rollback is proved for all). Not modelled: the exception message texts beyond _name_hash; an exception of any "
+              "type other than the three named ones out of the real set_hashes is a correspondence disagreement and a "
+              "monitor violation (the monitor demands the tree unchanged after ANY exception). The defects found in round 1 "
+              "(falsy stored hash, IndexError escaping the rollback) are fixed in /repo (b65c364); the model the check runs "
+              "is that repaired behaviour, C35_MODEL_MODE=asis runs the model of the earlier code.")
+RULE = ("a case is one set_hashes call of a history on a real IncompleteHashTree (state before, hashes, leaves, pop order), or one "
+        "validate-one-leaf step (needed_hashes answered genuinely, then set_hashes); distinct = distinct (num_leaves, "
+        "tree-before, call) triples; non-trivial = the call supplies at least one hash to a tree of at least 2 leaves. "
+        "Index-arithmetic / _name_hash / HashTree-construction / needed_hashes comparisons are counted as trivial cases. "
+        "VERIF_CORPUS_ONLY=1 runs only the fixed corpus.")
 TRUSTED = ["lean/Tahoe/Base/Merkle.lean is a hand transcription of hashtree.py (per-level sets as one insertion-ordered "
-           "list filtered by depth; sibling() by parity, shown equal to the code's parent/lchild/rchild form)",
-           "the harness maps 32-byte SHA-256d values to symbolic terms (atoms, empty-leaf hashes, pairs); a value it cannot "
-           "explain as the pair hash of the node's children is printed as raw hex and so shows up as a disagreement",
+           "list filtered by depth; sibling() by parity, proved equal to the code's parent/lchild/rchild form; a red-dotted "
+           "negative key summarised as BatchOutcome.unvalidatable instead of replaying the level loop)",
+           "the harness maps byte strings to symbolic terms (atoms, empty-leaf hashes, pairs, raw atoms for values that are "
+           "not 32-byte hashes); a stored value it cannot explain as the pair hash of the node's children is printed as raw "
+           "hex and so shows up as a disagreement; for batches the model marks `reject` the implementation's IndexError / "
+           "BadHashError / NotEnoughHashesError are compared as one class (list contents still exactly)",
            "set.pop() order is injected by shadowing the name `set` in the allmydata.hashtree module namespace at run time "
            "(priority orders only; the theorems cover every order)"]
 ASSUMPTIONS = ["pair_hash (SHA-256d tagged pair hash, each input netstring-framed) is injective on byte strings of ANY length — "
-               "hypothesis PairInjective of the soundness theorem; the harness feeds re-splits of (left || right) at every "
-               "boundary, prefixes and extensions of genuine values, after the genuine tree was hashed in the same process",
-               "keys of hashes/leaves are Python ints of any sign and size (negative keys alias list slots; modelled by "
-               "setHashesZ, whose exception class for a red-dotted negative key is left open between IndexError / "
-               "BadHashError / NotEnoughHashesError — the harness maps those three to `reject` for such batches)"]
+               "hypothesis PairInjective of sound / sound_any_batch / history_invariant; the harness feeds re-splits of "
+               "(left || right) at every boundary, prefixes and extensions of genuine values, after the genuine tree was "
+               "hashed in the same process",
+               "the presence test never takes a stored hash for None (StrictPresence): holds for /repo since b65c364 for every "
+               "hash value, and for the earlier code over non-empty hashes",
+               "the caller survives exceptions and keeps using the tree object (histories); keys of hashes/leaves are Python "
+               "ints of any sign and size, values are bytes of any length"]
 
 # Which behaviour the Lean model is run with: "fixed" = with fixes/C35-falsy-hash-and-indexerror.diff applied
 # (`if self[i] is not None:` twice, IndexError also rolls back); "asis" = /repo's code as it is.
